@@ -18,8 +18,8 @@ func init() {
 			"strided for larger) x {explicit, auto} x single and repeated rewinds x full and chunked seekable reads; the results after the rewind are compared with a fresh demuxer; " +
 			"distinct = hash of (stream, api, size mode, k); non-trivial = k>0",
 		Assumptions: []string{"the reader is an in-memory seekable tap; streams satisfy the property's precondition (PAT precedes PMTs)"},
-		Shards: 32,
-		Run:    runC20,
+		Shards:      32,
+		Run:         runC20,
 		Guards: func(m *mon.Merged, tier string) []string {
 			var out []string
 			need(m, &out, "rewinds_checked", 5000)
